@@ -168,6 +168,19 @@ def make(cname, depth=0):
         elif par.default is inspect.Parameter.empty:
             raise RuntimeError(f"do not know how to fill parameter {pn!r} of {cname}")
     obj = cls(**kw)
+    # public settings are re-tuned AFTER construction as well (a setting cached at construction time must not be what gets serialised)
+    for pn in list(kw):
+        if depth == 0 and rng.random() < 0.5 and hasattr(obj, pn):
+            v = getattr(obj, pn)
+            try:
+                if isinstance(v, (bool, np.bool_)):
+                    setattr(obj, pn, not bool(v))
+                elif isinstance(v, (int, np.integer)):
+                    setattr(obj, pn, int(v) + 1)
+                elif isinstance(v, (float, np.floating)):
+                    setattr(obj, pn, float(v) * 1.5 if v else 0.125)
+            except Exception:  # noqa: BLE001
+                pass
     tun = {}
     for tn, tv in (("max_attempts", 17), ("default_label", 0), ("bias_towards_insert", 0.3)):
         if hasattr(obj, tn) and tn not in kw and not isinstance(getattr(type(obj), tn, None), property):
